@@ -95,20 +95,54 @@ func stringToInt(ss string) (int64, error) {
 	if ss == "" {
 		return 0, nil
 	}
-	if ss == "-0" {
-		return 0, strconv.ErrSyntax
-	}
 	if len(ss) > 2 {
-		switch ss[:2] {
-		case "0x", "0X":
-			return strconv.ParseInt(ss[2:], 16, 64)
-		case "0b", "0B":
-			return strconv.ParseInt(ss[2:], 2, 64)
-		case "0o", "0O":
-			return strconv.ParseInt(ss[2:], 8, 64)
+		base := nonDecimalPrefixBase(ss)
+		if base != 0 {
+			// NonDecimalIntegerLiteral: digits only, no sign after the prefix. Values that do not fit are handled by _toFloat.
+			u, err := strconv.ParseUint(ss[2:], base, 63)
+			return int64(u), err
 		}
 	}
-	return strconv.ParseInt(ss, 10, 64)
+	i, err := strconv.ParseInt(ss, 10, 64)
+	if err == nil && i == 0 && ss[0] == '-' {
+		// "-0", "-00", ...: negative zero is not an integer value, let _toFloat produce it
+		return 0, strconv.ErrSyntax
+	}
+	return i, err
+}
+
+// nonDecimalPrefixBase returns 16, 8 or 2 if s starts with 0x, 0o or 0b (in either case), otherwise 0.
+func nonDecimalPrefixBase(s string) int {
+	if len(s) >= 2 && s[0] == '0' {
+		switch s[1] {
+		case 'x', 'X':
+			return 16
+		case 'o', 'O':
+			return 8
+		case 'b', 'B':
+			return 2
+		}
+	}
+	return 0
+}
+
+// parseNonDecimalDigits returns the Number value of a (possibly very long) sequence of digits in base 16, 8 or 2,
+// rounded to nearest (ties to even).
+func parseNonDecimalDigits(digits string, base int) (float64, error) {
+	if digits == "" {
+		return 0, strconv.ErrSyntax
+	}
+	for i := 0; i < len(digits); i++ {
+		if digitVal(digits[i]) >= base {
+			return 0, strconv.ErrSyntax
+		}
+	}
+	n, ok := new(big.Int).SetString(digits, base)
+	if !ok {
+		return 0, strconv.ErrSyntax
+	}
+	f, _ := new(big.Float).SetInt(n).Float64()
+	return f, nil
 }
 
 func (s asciiString) _toInt(trimmed string) (int64, error) {
@@ -129,6 +163,10 @@ func (s asciiString) _toFloat(trimmed string) (float64, error) {
 	if trimmed == "-0" {
 		var f float64
 		return -f, nil
+	}
+
+	if base := nonDecimalPrefixBase(trimmed); base != 0 {
+		return parseNonDecimalDigits(trimmed[2:], base)
 	}
 
 	// Go allows underscores in numbers, when parsed as floats, but ECMAScript expect them to be interpreted as NaN.
@@ -178,7 +216,7 @@ func (s asciiString) ToInteger() int64 {
 	if err != nil {
 		f, err := s._toFloat(ss)
 		if err == nil {
-			return int64(f)
+			return floatToIntClip(f)
 		}
 	}
 	return i
